@@ -5,9 +5,13 @@ it is filled in by hand from the runs of tools/confirm_mutant.sh (scratch worktr
 import json, os, shutil, subprocess, sys
 
 ROOT = os.path.dirname(os.path.dirname(os.path.abspath(__file__)))
-SRC = "/tmp/mut"
+SRC = sys.argv[1] if len(sys.argv) > 1 else "/tmp/mut"
+TABMOD = sys.argv[2] if len(sys.argv) > 2 else "tools.seeded_table"
+CONFIRM = "tools/confirm_mutant3.sh" if "mut3" in SRC else "tools/confirm_mutant.sh"
+RUNNER = "tools/mutant_wt.py" if "mut3" in SRC else "tools/mutant.py"
 sys.path.insert(0, ROOT)
-from tools.seeded_table import TABLE  # noqa
+import importlib
+TABLE = importlib.import_module(TABMOD).TABLE
 
 head = subprocess.run(["git", "-C", "/repo", "rev-parse", "--short", "HEAD"], capture_output=True, text=True).stdout.strip()
 for sid, m in TABLE.items():
@@ -22,10 +26,13 @@ for sid, m in TABLE.items():
         diff = os.path.join(out, x + ".diff")
     shutil.copy(diff, os.path.join(dst, "patch.diff"))
     shutil.copy(os.path.join(out, "demo_%s.sh" % x), os.path.join(dst, "demo.sh"))
-    for extra in m.get("extra_files", []):
+    extras = list(m.get("extra_files", []))
+    if os.path.isdir(os.path.join(out, "demo_%s" % x)):
+        extras.append("demo_%s" % x)
+    for extra in extras:
         p = os.path.join(out, extra)
         if os.path.isdir(p):
-            shutil.copytree(p, os.path.join(dst, extra), dirs_exist_ok=True, ignore=shutil.ignore_patterns("target", "*.log"))
+            shutil.copytree(p, os.path.join(dst, extra), dirs_exist_ok=True, ignore=shutil.ignore_patterns("target", "*.log", "Cargo.lock"))
         elif os.path.exists(p):
             shutil.copy(p, os.path.join(dst, extra))
     if os.path.exists(os.path.join(out, "notes.md")):
@@ -41,15 +48,15 @@ for sid, m in TABLE.items():
         "needs_to_manifest": m["needs"],
         "written_by": "independent sub-agent given only the property text and a scratch worktree of /repo",
         "confirmed": {
-            "how": "tools/confirm_mutant.sh %s %s: scratch worktree /tmp/mut/%s at /repo HEAD, git apply, cargo build --offline, "
-                   "cargo test --workspace --no-fail-fast --offline, demo with the change, git checkout, demo without" % (pid, x, pid),
+            "how": (CONFIRM + " %s %s: scratch worktree " + SRC + "/%s at /repo HEAD, git apply, cargo build --offline, "
+                    "cargo test --workspace --no-fail-fast --offline, demo with the change, git checkout, demo without") % (pid, x, pid),
             "repo_head": head,
             "result": conf,
             "pinned_tests": "same 7 environment-dependent failures as the pristine tree, all others pass",
             "rebased_by_hand": os.path.basename(diff).endswith("rebased.diff"),
         },
         "checks": {
-            "run": "tools/mutant.py seeded/%s/patch.diff %s quick" % (sid, ",".join(m["caught_by"] or [pid])),
+            "run": RUNNER + " seeded/%s/patch.diff %s quick" % (sid, ",".join(m["caught_by"] or [pid])),
             "caught_by": m["caught_by"],
             "classes": m.get("classes", []),
             "first_attempt": m["first"],
